@@ -26,7 +26,9 @@ CFG_T = S.Cfg(ascii_only=False, max_items=16, depth=3)
 
 
 def strategy(tier):
-    return K.script_case(CFG_Q if tier == "quick" else CFG_T)
+    base = CFG_Q if tier == "quick" else CFG_T
+    tdm = S.Cfg(ascii_only=False, max_items=base.max_items, depth=base.depth, tdm=True)
+    return st.one_of(K.script_case(base), K.script_case(base), K.script_case(base), K.script_case(tdm))
 
 
 dump_case, load_case = K.dump_case, K.load_case
